@@ -47,6 +47,8 @@ def sig(b):
     for k in ("phase", "name", "field", "what", "table", "api", "tag"):
         if k in rec:
             s[k] = rec[k]
+    if rec.get("ev") == "AltWrite":
+        s["api"] = rec.get("api")
     if "res" in rec:
         s["res"] = str(rec["res"])[:120]
     if rs.get("kind") in ("root", "rootconv"):
